@@ -78,6 +78,19 @@ def replay(case):
         return dict(reproduced=False)
     if kind == 'master':
         bad, d = master_case(des, case['key'], case['round'], case['pt']); return dict(reproduced=bad, detail=d)
+    if kind == 'candidates':
+        # _find_possible_keys on random keys of this round: 256 distinct candidates, each reproducing the round key, the key (parity cleared) among them
+        from specs import fips46 as D2
+        r = case['round']
+        for t in range(12):
+            key = [rnd.randrange(256) for _ in range(8)]; rk = np.array(D.round_keys_words(key)[r], dtype='uint8')
+            try:
+                c = des._find_possible_keys(rk, r)
+                ok = c.shape == (256, 8) and len({tuple(x) for x in c.tolist()}) == 256 and all(D.round_keys_words(list(map(int, x)))[r] == rk.tolist() for x in c[::17]) \
+                    and [v & 0xfe for v in key] in [[int(v) & 0xfe for v in x] for x in c]
+            except Exception as e: ok = False
+            if not ok: return dict(reproduced=True, key=key, round=r, detail='candidate set of _find_possible_keys is not the 256 completions containing the key')
+        return dict(reproduced=False)
     if kind == 'schedule_history':
         for t in range(4):
             kb = [rnd.randrange(256) for _ in range(32)]; K = np.array(kb, dtype='uint8')
